@@ -432,8 +432,9 @@ def finalState (scripts : List Script) (s : St) : List Op → St
 /-! ## The property C11 as an observer over a history of observations
 
 `pre` is the snapshot before the operation (the `post` of the previous observation, `init` at the start).
-Nothing of the model's *library* code above is used below: only the accessors of a snapshot, the event log, the
-reading conventions `readValue` / `readError` / `errOfCancel` / `bodyOutc`, and - for a successful `add` - the
+Nothing of the model's *library* code above is used below (the observer does not see the flush scripts either: that a
+value in the log is the one a script named is the correspondence check's business): only the accessors of a snapshot,
+the event log, the reading conventions `readValue` / `readError` / `errOfCancel` / `bodyOutc`, and - for a successful `add` - the
 primitive `pushItem` ("the snapshot before, plus one pending item at the end of that batch's list"). -/
 
 def St.ibatch (s : St) (i : Nat) : Nat := match s.items[i]? with | some it => it.batch | none => 0
@@ -469,7 +470,8 @@ instance (s t : St) : Decidable (Ext s t) := by unfold Ext; infer_instance
 
 /-- the outcome an item may get from the library (`BatchBase._computed` / `DebugBatch._flush`), i.e. not from a
     script statement or a handler: the batch's error; else (user subclass, batch flushed) "not set"; `br` = the
-    operation is one that runs the flush body: only then a DebugBatch item may get its `_result` -/
+    operation is one that runs the flush body: only then a DebugBatch item may get its `_result`.  That the item
+    belongs to the batch being finished is demanded by `frameChecks` ("item-of-other-batch"), for every completion -/
 def itemRule (k : Kind) (br : Bool) (o : Outc) (bo : Option Outc) (payload : Nat) : Bool :=
   (match bo with
    | some (.err e) => o == .err e
@@ -588,14 +590,56 @@ def slotOk (pre post : St) (fin : Option Nat) : Bool :=
   if fin = some pre.active then post.batches.length == pre.batches.length + 1 && post.active == pre.batches.length
   else post.batches.length == pre.batches.length && post.active == pre.active
 
+def Fate.batch? : Fate → Option Nat
+  | .flushed b _ => some b
+  | .cancelled b _ => some b
+  | .quiet => none
+
+/-- a completion by the library (`BatchBase._computed` / `DebugBatch._flush`) -/
+def Ev.isLib : Ev → Bool
+  | .item _ _ false => true
+  | _ => false
+
+/-- a completion by harness code (a script statement or a sibling's `link` handler) -/
+def Ev.isSet : Ev → Bool
+  | .item _ _ true => true
+  | _ => false
+
+def Ev.isBodyEnd : Ev → Bool
+  | .bodyEnd _ _ _ => true
+  | _ => false
+
+/-- the library completes an item BEFORE the flush body has ended (`_computed` runs after `_flush` has returned or
+    raised: batching.py:111-116) -/
+def libBeforeEnd : List Ev → Bool
+  | [] => false
+  | ev :: rest => if ev.isBodyEnd then false else if ev.isLib then true else libBeforeEnd rest
+
+def hasDup : List Nat → Bool
+  | [] => false
+  | i :: is => is.contains i || hasDup is
+
+/-- why `DebugBatch._flush` may raise FutureIsAlreadyComputed (batching.py:267-268 `item.set_value(item._result)` on a
+    computed item): an item of the batch was complete before the operation, or a completion handler completed a
+    sibling during it, or the item list names an item twice -/
+def alreadyCause (pre : St) (b : Nat) (evs : List Ev) : Bool :=
+  (pre.bitems b).any (fun i => (pre.iout i).isSome) || evs.any Ev.isSet || hasDup (pre.bitems b)
+
+/-- the items constructed on batch c during the operation, in order -/
+def createdOn (evs : List Ev) (c : Nat) : List Nat :=
+  evs.filterMap fun ev => match ev with
+    | .created i b _ => if b = c then some i else none
+    | _ => none
+
 /-- a list of named checks: the name of the first one that fails -/
 def firstFail : List (Bool × String) → Option String
   | [] => none
   | (ok, name) :: rest => if ok then firstFail rest else some name
 
 /-- the checks on the flush body of batch b: it ran exactly once, first of all, and what it did decides the batch's
-    outcome (user subclass: the harness logs what its `_flush` raised; DebugBatch: the body cannot be hooked, it
-    either returns or raises FutureIsAlreadyComputed) -/
+    outcome (user subclass: the harness logs what its `_flush` raised, and the library completes no leftover item
+    before the body has ended; DebugBatch: the body cannot be hooked, it either returns or raises
+    FutureIsAlreadyComputed - the latter only with a cause, `alreadyCause`) -/
 def bodyChecks (rx : Bool) (pre : St) (b : Nat) (post : St) (evs : List Ev) : List (Bool × String) :=
   match pre.kind with
   | .user =>
@@ -604,10 +648,12 @@ def bodyChecks (rx : Bool) (pre : St) (b : Nat) (post : St) (evs : List Ev) : Li
       ((evs.filter Ev.isBody).length == 1, "flush-runs-body-once"),
       (match evs.filterMap Ev.bodyEnd? with
        | [(b', r, done)] => b' == b && (rx || done.isNone) && post.bout b == some (done.getD (bodyOutc r))
-       | _ => false, "flush-outcome") ]
+       | _ => false, "flush-outcome"),
+      (rx || !libBeforeEnd evs, "leftover-before-body-end") ]
   | .debug =>
     [ (!evs.any Ev.isBodyEv, "debug-body-events"),
-      (rx || post.bout b == some (.val 0) || post.bout b == some (.err .already), "flush-outcome") ]
+      (rx || post.bout b == some (.val 0) ||
+        (post.bout b == some (.err .already) && alreadyCause pre b evs), "flush-outcome") ]
 
 /-- the effect the operation must have on the batch it is about (`rx` = the observation comes from the family
     `reenter`, where the batch may get cancelled from inside its own flush: then the outcome found at the end of the
@@ -631,6 +677,21 @@ def fateChecks (rx : Bool) (pre : St) (ob : Obs) : List (Bool × String) :=
     bodyChecks rx pre b post ob.evs
 
 def fateClause (rx : Bool) (pre : St) (ob : Obs) : Option String := firstFail (fateChecks rx pre ob)
+
+/-- **frame**: (1) every item completed during the operation - by whomever - belongs to the batch the operation has to
+    finish (so finishing a batch never completes an item of ANOTHER batch: not of the fresh batch that requests
+    issued during the flush join, not of a pending batch elsewhere); (2) the item list of every other batch is what
+    it was plus the items constructed on it during the operation, in order (the list of the finished batch itself is
+    judged by `fateChecks`: kept, or cleared by `flush()`) -/
+def frameChecks (pre : St) (ob : Obs) : List (Bool × String) :=
+  let fb := (fate pre ob.op).batch?
+  [ (ob.evs.all (fun ev => match ev with
+        | .item i _ _ => fb == some (ob.post.ibatch i)
+        | _ => true), "item-of-other-batch"),
+    ((List.range ob.post.batches.length).all (fun c =>
+        fb == some c || ob.post.bitems c == pre.bitems c ++ createdOn ob.evs c), "items-frame") ]
+
+def frameClause (pre : St) (ob : Obs) : Option String := firstFail (frameChecks pre ob)
 
 /-- the result / effect of the operation itself -/
 def opClause (pre : St) (ob : Obs) : Option String :=
@@ -708,6 +769,9 @@ def specStep (rx : Bool) (pre : St) (ob : Obs) : Option String :=
     | some c => some c
     | none =>
       match fateClause rx pre ob with
+      | some c => some c
+      | none =>
+      match frameClause pre ob with
       | some c => some c
       | none =>
         if (ob.evs.filter Ev.isAnnounce).length > 1 then some "announce-once"
